@@ -16,7 +16,10 @@ package resolver
 
 import (
 	"context"
+	"encoding/json"
 	"io"
+	"path/filepath"
+	"sort"
 	"errors"
 	"fmt"
 	"math/rand"
@@ -280,6 +283,9 @@ func vC01NewWorld(r *rand.Rand) *vC01World {
 	x := &vC01World{w: vC01NewW(r), r: r, now: uint32(time.Now().Unix()), msgs: map[*dns.Msg]int{}, ds: map[string]*dns.Msg{}, keys: map[string]*dns.Msg{}, dname: map[string]*dns.Msg{}, fkeys: map[string]bool{}}
 	names := []string{".", "tld.", "zone.tld.", "sub.zone.tld."}
 	depth := 2 + r.Intn(3)
+	if vC01F != nil {
+		depth = vC01F.Depth
+	}
 	var parent *vC01Zone
 	for i := 0; i < depth; i++ {
 		z := &vC01Zone{name: names[i], parent: parent, signed: true, cut: "secure"}
@@ -291,6 +297,10 @@ func vC01NewWorld(r *rand.Rand) *vC01World {
 				z.cut = "unsupported"
 			case 3:
 				z.cut, z.signed = "unproven", r.Intn(2) == 0
+			}
+			if vC01F != nil && i-1 < len(vC01F.Cuts) {
+				z.cut = vC01F.Cuts[i-1]
+				z.signed = z.cut == "secure" || z.cut == "unsupported"
 			}
 			if !parent.signed || x.insecureAbove(parent) {
 				// below an insecure cut nothing is authenticated; a signed zone here is an island
@@ -585,10 +595,44 @@ func TestVerifC01Mid(t *testing.T) {
 	res := NewResolver(cfg)
 	res.rootServers = nil // a sub-query the table does not answer fails at once (errNoRootServers)
 	vC01KSKPool = vC01BuildPool(rand.New(rand.NewSource(seed+9)), 1500, 257)
+	// corpus first: scenario classes of the findings and seeded changes this check caught
+	if dir := os.Getenv("VERIF_CORPUS"); dir != "" {
+		files, _ := filepath.Glob(filepath.Join(dir, "mid-*.json"))
+		sort.Strings(files)
+		for _, fn := range files {
+			raw, err := os.ReadFile(fn)
+			if err != nil {
+				continue
+			}
+			f := new(vC01Force)
+			if json.Unmarshal(raw, f) != nil || f.Depth < 2 {
+				continue
+			}
+			vC01F = f
+			cr := rand.New(rand.NewSource(42))
+			for j := 0; j < 3; j++ {
+				vC01MidCase(cr, res, tr)
+			}
+			vC01F = nil
+		}
+	}
 	for i := 0; i < n; i++ {
 		vC01MidCase(rnd, res, tr)
 	}
 }
+
+// vC01Force pins the choices that define a corpus scenario; everything else stays drawn from the PRNG
+type vC01Force struct {
+	Depth     int      // number of zones incl. the root
+	Cuts      []string // how each non-root zone is delegated ("secure", "insecure", ...); unsigned when "insecure"/"unproven"
+	Mode      int      // 0 positive, 5 negative, 9 referral
+	Shape     int      // positive answer shape (2 = plain A)
+	Tampers   []int    // tamper kinds, in order
+	Companion bool     // repeat the call with the trust set emptied
+	Variant   string   // verifyDNSSEC-on-own-DNSKEY-answer variant ("" = none)
+}
+
+var vC01F *vC01Force
 
 // pairs of Ed25519 seeds whose flags-257 DNSKEY RDATA share one key tag (found by search)
 var vC01KSKPool *vC01Pool
@@ -618,7 +662,7 @@ func vC01MidCase(rnd *rand.Rand, r *Resolver, tr *vC01Trace) {
 	parentDS := x.dsOf(z)
 	zoneArg := z.name
 	shared := false
-	if len(x.zones) >= 3 && rnd.Intn(4) == 0 {
+	if len(x.zones) >= 3 && rnd.Intn(4) == 0 && vC01F == nil {
 		// one server authoritative for an ancestor and for z: no referral crossed, so the
 		// resolver still holds the ancestor's DS and zone
 		anc := x.zones[len(x.zones)-2-rnd.Intn(len(x.zones)-2)]
@@ -641,13 +685,20 @@ func vC01MidCase(rnd *rand.Rand, r *Resolver, tr *vC01Trace) {
 
 	cd := rnd.Intn(10) == 0
 	mode := rnd.Intn(10)
+	if vC01F != nil {
+		cd, mode = false, vC01F.Mode
+	}
 	var resp *dns.Msg
 	genuine := true
 	negative := false
 	switch {
 	case mode < 5: // positive answer
 		resp = x.newMsg(qname, dns.TypeA)
-		switch rnd.Intn(5) {
+		shape := rnd.Intn(5)
+		if vC01F != nil {
+			shape = vC01F.Shape
+		}
+		switch shape {
 		case 0: // wildcard expansion with its next-closer denial
 			if z.signed && qname != z.name {
 				set := []dns.RR{&dns.A{Hdr: dns.RR_Header{Name: x.sub("*", z.name), Rrtype: dns.TypeA, Class: dns.ClassINET, Ttl: 300}, A: []byte{192, 0, 2, 7}}}
@@ -763,8 +814,15 @@ func vC01MidCase(rnd *rand.Rand, r *Resolver, tr *vC01Trace) {
 
 	// ---- tampering ----
 	tampers := []int{0, 0, 0, 1, 1, 2}[rnd.Intn(6)]
+	if vC01F != nil {
+		tampers = len(vC01F.Tampers)
+	}
 	for i := 0; i < tampers; i++ {
-		switch []int{0, 1, 1, 2, 3, 4, 4, 4, 5, 6, 7, 8, 9, 10, 11, 12}[rnd.Intn(16)] {
+		tk := []int{0, 1, 1, 2, 3, 4, 4, 4, 5, 6, 7, 8, 9, 10, 11, 12}[rnd.Intn(16)]
+		if vC01F != nil {
+			tk = vC01F.Tampers[i]
+		}
+		switch tk {
 		case 0: // forged data signed by a key that merely claims the zone's name
 			if z.signed {
 				ak := x.attackerKey(att, z.name, 256)
@@ -909,7 +967,7 @@ func vC01MidCase(rnd *rand.Rand, r *Resolver, tr *vC01Trace) {
 		}
 	}
 	// the live trust set may be gone whatever the hierarchy looks like (AutoTA cleared it): every validating path must fail closed
-	if rnd.Intn(12) == 0 && len(x.anchors) > 0 {
+	if rnd.Intn(12) == 0 && len(x.anchors) > 0 && vC01F == nil {
 		x.anchors = nil
 		kinds = append(kinds, "t:no-anchor")
 	}
@@ -1011,7 +1069,7 @@ func vC01MidCase(rnd *rand.Rand, r *Resolver, tr *vC01Trace) {
 
 	// the same call once more with the live trust set gone: whatever the response looks like — signed,
 	// unsigned, negative, referral — a validating path must fail closed
-	if len(x.anchors) > 0 && !cd && rnd.Intn(3) == 0 {
+	if len(x.anchors) > 0 && !cd && (rnd.Intn(3) == 0 || (vC01F != nil && vC01F.Companion)) {
 		saved := x.anchors
 		x.anchors = nil
 		x.install(r)
@@ -1051,10 +1109,13 @@ func vC01MidCase(rnd *rand.Rand, r *Resolver, tr *vC01Trace) {
 	}
 
 	// verifyDNSSEC on a zone's own DNSKEY answer: genuine, or with a key the DS does not vouch for doing the signing
-	if vz := x.zones[1+rnd.Intn(len(x.zones)-1)]; vz.signed && rnd.Intn(3) == 0 {
+	if vz := x.zones[1+rnd.Intn(len(x.zones)-1)]; vz.signed && (rnd.Intn(3) == 0 || (vC01F != nil && vC01F.Variant != "")) {
 		ak := x.attackerKey(att, vz.name, 256)
 		km := x.newMsg(vz.name, dns.TypeDNSKEY)
 		variant := []string{"genuine", "extra-key-signed-by-it", "extra-key-both-sign", "zsk-signs-only", "attacker-only", "tag-twin-of-ksk-signs", "tag-twin-of-ksk-signs"}[rnd.Intn(7)]
+		if vC01F != nil && vC01F.Variant != "" {
+			variant = vC01F.Variant
+		}
 		forged := false
 		vksk := vz.ksk
 		switch variant {
